@@ -8,10 +8,12 @@ import (
 	"bytes"
 	"fmt"
 	"math/rand"
+	"strings"
 	"sync"
 	"sync/atomic"
 	"time"
 
+	"github.com/cuteLittleDevil/go-jt808/service"
 	"github.com/cuteLittleDevil/go-jt808/shared/consts"
 )
 
@@ -148,8 +150,10 @@ func (t *term) serve(r *rand.Rand, sc termScript, done <-chan struct{}) {
 				answer(seq)
 				t.send(t.frame(0x0002, nil))
 				answer(seq)
-			case "unknown":
-				answer((seq + 7) % 65536)
+			case "unknown": // a response echoing a serial no outstanding command has (0 was used up by the first reply of the connection)
+				if u := []int{(seq + 7) % 65536, 0, 65535, (seq + 65535) % 65536}[r.Intn(4)]; u != seq {
+					answer(u)
+				}
 				answer(seq)
 			case "reverse":
 				held = append(held, [2]int{cmd, seq})
@@ -287,6 +291,34 @@ func init() {
 			t.send(t.frame(0x1003, attrs))
 			time.Sleep(50 * time.Millisecond)
 		}
+		// (a2) while a terminal is online another connection presents its phone, with a registration (then an authentication) as its
+		// first message: it is refused like any duplicate, and when it has gone the terminal that was there first is still reached
+		for round, first := range []int{0x0100, 0x0102} {
+			t := terms[0]
+			key := string(asciiDigits(t.phone))
+			imp := l.dial(t.phone, t.ver)
+			body := append(make([]byte, 25+8), []byte("A12345")...)
+			if first == 0x0102 {
+				body = asciiDigits(t.phone)
+				if t.ver == 1 {
+					body = append(append([]byte{byte(len(body))}, body...), make([]byte, 35)...)
+				}
+			}
+			imp.send(imp.frame(first, body))
+			imp.waitRecv(1, 100*time.Millisecond)
+			imp.close(round == 1)
+			time.Sleep(80 * time.Millisecond)
+			resCh := make(chan cmdResult, 1)
+			k := int(kid.Add(1))
+			go func() {
+				resCh <- l.sendActive(t.idx, k, key, consts.P8104QueryTerminalParams, nil, 2*time.Second)
+			}()
+			if ser, ok := nextCmd(t, 0x8104, 3*time.Second); ok {
+				t.send(t.frame(0x0104, respBody(0x0104, ser, 0x8104)))
+			}
+			res := <-resCh
+			l.rec.log(t.idx, "D", "assert", "ok", res.Kind == "resp", "what", "TerminalUnreachableAfterARefusedDuplicateLeft", "kind", res.Kind)
+		}
 		// (b) completions for callers that have left: the writer of terminal t is parked (by the clock) for longer than two callers
 		// wait; when it wakes it still writes their commands and their time-outs expire - results nobody waits for.  Meanwhile
 		// callers of another terminal are waiting: each of them gets the result of its own command only
@@ -395,6 +427,7 @@ func init() {
 			{"timeouts-expire-while-the-writer-is-held-in-a-callback", nil},
 			{"timeouts-of-different-lengths-in-adverse-order", nil},
 			{"burst-in-one-segment-then-reset", nil},
+			{"messages-then-a-close-arrive-while-the-writer-is-held-and-callers-without-a-time-out-wait", nil},
 			{"close-before-join", nil},
 			{"close-mid-frame", nil},
 			{"random-storm", nil},
@@ -578,6 +611,43 @@ func init() {
 					t.send(burst)
 					time.Sleep(time.Duration(r.Intn(800)) * time.Microsecond)
 					t.close(true)
+				case "messages-then-a-close-arrive-while-the-writer-is-held-and-callers-without-a-time-out-wait":
+					// two commands are outstanding for callers that wait without a time-out; the writer is parked (by the clock) in a write
+					// callback while a batch of messages and then the end of the connection arrive. When it wakes both its inbox and the
+					// stop signal are ready, in whatever order it takes them: the callers are told that the connection has gone
+					for rep := 0; rep < 4; rep++ {
+						if rep > 0 {
+							ph := append([]byte{}, phone...)
+							ph[1] = byte(0x40 + rep)
+							t = l.dial(ph, 0)
+							key = string(asciiDigits(ph))
+							l.rec.log(t.idx, "D", "scenario", "name", sc.name)
+						}
+						t.send(t.frame(0x0002, nil))
+						t.waitRecv(1, 2*time.Second)
+						call(t, key, -time.Millisecond, &wg)
+						call(t, key, -time.Millisecond, &wg)
+						t.waitRecv(3, 2*time.Second)
+						var once atomic.Bool
+						tt := t
+						hold := func(c int) {
+							if c == tt.idx && !once.Swap(true) {
+								time.Sleep(120 * time.Millisecond)
+							}
+						}
+						l.writeHold.Store(&hold)
+						t.send(t.frame(0x0002, nil))
+						time.Sleep(10 * time.Millisecond)
+						var batch []byte
+						for i := 0; i < 6; i++ {
+							batch = append(batch, t.frame(0x0002, nil)...)
+						}
+						t.send(batch)
+						time.Sleep(10 * time.Millisecond)
+						t.close(false)
+						wg.Wait()
+						l.writeHold.Store(nil)
+					}
 				case "close-before-join":
 					call(t, key, 100*time.Millisecond, &wg)
 					t.close(r.Intn(2) == 0)
@@ -617,6 +687,63 @@ func init() {
 		t.close(false)
 		time.Sleep(50 * time.Millisecond)
 		l.dump(a[1])
+	}
+}
+
+func init() {
+	// live-c13key <trace>: the server runs with WithKeyFunc and one terminal's key is the empty string (a legal key). After each
+	// terminal has gone (EOF or reset) callers of its key - without a time-out, and with one - are told at once that it is not there
+	cmds["live-c13key"] = func(a []string) {
+		keyOf := func(ph []byte) string { return strings.TrimLeft(fmt.Sprintf("%02x", ph[4]), "0") }
+		l := startLive(liveOpts{traceTo: a[0], keyFunc: func(m *service.Message) (string, bool) {
+			d := m.JTMessage.Header.TerminalPhoneNo
+			for len(d) < 12 {
+				d = "0" + d
+			}
+			return strings.TrimLeft(d[8:10], "0"), true
+		}})
+		kid := 0
+		for round := 0; round < 4; round++ {
+			ph := []byte{0x01, 0x36, 0x00, 0x00, byte(round % 2 * 7), byte(round)}
+			key := keyOf(ph)
+			t := l.dial(ph, 0)
+			t.send(t.frame(0x0002, nil))
+			joined := t.waitRecv(1, 3*time.Second)
+			// while it is there a command reaches it
+			kid++
+			resCh := make(chan cmdResult, 1)
+			go func(k int) { resCh <- l.sendActive(t.idx, k, key, consts.P8104QueryTerminalParams, nil, time.Second) }(kid)
+			deadline := time.After(2 * time.Second)
+		answer:
+			for {
+				select {
+				case fr := <-t.recvCh:
+					if dv, _ := decodeView(fr); dv.Ok && dv.ID == 0x8104 {
+						t.send(t.frame(0x0104, respBody(0x0104, dv.Serial, 0x8104)))
+						break answer
+					}
+				case <-deadline:
+					break answer
+				}
+			}
+			res := <-resCh
+			l.rec.log(t.idx, "D", "assert", "ok", joined && res.Kind == "resp", "what", "CommandToAnOnlineKeyNotAnswered", "key", key, "kind", res.Kind)
+			t.close(round >= 2)
+			time.Sleep(150 * time.Millisecond)
+			var wg sync.WaitGroup
+			for i, tmo := range []time.Duration{-1, -1, 400 * time.Millisecond, -1, -1} {
+				kid++
+				wg.Add(1)
+				go func(k, i int, tmo time.Duration) {
+					defer wg.Done()
+					r := l.sendActive(t.idx, k, key, consts.P8104QueryTerminalParams, nil, tmo)
+					l.rec.log(t.idx, "D", "assert", "ok", r.Kind == "notexist" && r.Ms < 400, "what", "CallerOfADepartedKeyNotToldAtOnce", "key", key, "kind", r.Kind, "ms", r.Ms, "tmo", int(tmo/time.Millisecond))
+				}(kid, i, tmo)
+			}
+			wg.Wait()
+		}
+		time.Sleep(100 * time.Millisecond)
+		l.dump(a[0])
 	}
 }
 
